@@ -246,15 +246,19 @@ def c19(rng, tier, repo):
             with C.Scratch() as root:
                 cats, pkgs = gen_repo(root, rng)
                 override = rng.random() < 0.3
+                # an explicit format alone (profile watermark stays): the third iteration of every profile, otherwise random
+                fmt_only = (profile != 'default') and not override and (i % 3 == 2 or rng.random() < 0.15)
                 argv = ['create', '--profile', profile]
                 if profile == 'default' or override:
                     argv += ['--hashes', 'SHA1']
                 if override:
                     argv += ['--compress-watermark', '100000']
+                if fmt_only:
+                    argv += ['--compress-format', 'bz2']
                 st = C.run_cli(argv + [root])
                 n += 1
                 distinct += 1
-                desc = {'profile': profile, 'categories': cats, 'packages': pkgs, 'override': override}
+                desc = {'profile': profile, 'categories': cats, 'packages': pkgs, 'override': override, 'format_only': fmt_only}
                 if len(samples) < 2:
                     samples.append(desc)
                 if st != 0:
@@ -315,7 +319,7 @@ def c19(rng, tier, repo):
                                 unc = len(f.read())
                             compressed = fl[0] != 'Manifest'
                             want_c = unc >= 128 and not (profile == 'old-ebuild' and h in pkgs)
-                            if compressed != want_c or (compressed and fl[0] != 'Manifest.gz'):
+                            if compressed != want_c or (compressed and fl[0] != ('Manifest.bz2' if fmt_only else 'Manifest.gz')):
                                 viol.append(dict(desc, what='C19 %s/%s: %d bytes uncompressed' % (h, fl[0], unc), key='watermark:' + profile, props=['C19', 'C13']))
                 # verify with a plain (default profile) loader
                 v = C.run_cli(['verify', root])
@@ -326,7 +330,8 @@ def c19(rng, tier, repo):
                 if pkgs:
                     with open(os.path.join(root, pkgs[0], 'files', 'added.patch'), 'w') as f:
                         f.write('new')
-                    argv = ['update', '--profile', profile] + (['--hashes', 'SHA1'] if profile == 'default' or override else [])
+                    argv = ['update', '--profile', profile] + (['--hashes', 'SHA1'] if profile == 'default' or override else []) + \
+                        (['--compress-format', 'bz2'] if fmt_only else [])
                     st = C.run_cli(argv + [root])
                     v = C.run_cli(['verify', root]) if st == 0 else None
                     n += 1
@@ -344,7 +349,7 @@ def c20(rng, tier, repo):
     # plain generated repositories, then the same with one file whose name is portable but unusual (the names for which
     # the agreement lemmas of contracts/utils_scripts.py fail; a nested files/files/ directory for the AUX path rule)
     variants = [None] * (6 if tier == 'quick' else 80) + ['manifest-like-name', 'timestamp-outside-metadata', 'nested-files-dir',
-                                                            'category-without-packages']
+                                                            'category-without-packages', 'package-without-ebuild']
     for i, variant in enumerate(variants):
         with C.Scratch() as root:
             cats, pkgs = gen_repo(root, rng, with_ignored=False)
@@ -370,6 +375,15 @@ def c20(rng, tier, repo):
                     fh.write('<catmetadata/>')
                 with open(os.path.join(root, 'profiles', 'categories'), 'a') as fh:
                     fh.write('dev-empty\n')
+            elif variant == 'package-without-ebuild':
+                # a package directory that has lost its last ebuild (metadata.xml and files/ are still there)
+                if not cats:
+                    continue
+                pd = os.path.join(root, cats[0], 'orphaned')
+                os.makedirs(os.path.join(pd, 'files'))
+                for rel_, data in (('metadata.xml', '<pkgmetadata/>'), ('files/orphaned.patch', 'patch')):
+                    with open(os.path.join(pd, rel_), 'w') as fh:
+                        fh.write(data)
             if len(samples) < 2:
                 samples.append(desc)
             p = subprocess.run([sys.executable, os.path.join(utils, 'gen_fast_metamanifest.py'), root],
